@@ -11,7 +11,11 @@ Proof.
   exists a, pre, us'. rewrite E. repeat split; auto.
 Qed.
 
-(* every regenerated definition is the model, at every number record *)
+Lemma div_lawful_ROps eps : div_lawful (ROps eps).
+Proof. intros a b. cbn. unfold Rdiv'. destruct (Req_EM_T b 0); [reflexivity|exact I]. Qed.
+
+(* every regenerated definition is the model, at every number record (for mutESLogNormal: at every record whose
+   division can only fail with ZeroDivisionError -- the float and the real instance are such) *)
 Lemma source_is_model : forall (T : Type) (O : ops T),
   (forall ind1 ind2 alpha s, cxBlend O ind1 ind2 alpha s = cx_blend O alpha ind1 ind2 s) /\
   (forall ind1 ind2 eta s, cxSimulatedBinary O ind1 ind2 eta s = cx_sbx O eta ind1 ind2 s) /\
@@ -23,7 +27,7 @@ Lemma source_is_model : forall (T : Type) (O : ops T),
      mutPolynomialBounded O individual eta low up indpb s = mut_poly O eta low up indpb individual s) /\
   (forall ind1 st1 ind2 st2 alpha s,
      cxESBlend O ind1 st1 ind2 st2 alpha s = cx_es_blend O alpha ind1 st1 ind2 st2 s) /\
-  (forall individual st c indpb s,
+  (div_lawful O -> forall individual st c indpb s,
      mutESLogNormal O individual st c indpb s = mut_es_lognormal O c indpb individual st s).
 Proof.
   intros T O. repeat split; intros.
@@ -33,8 +37,11 @@ Proof.
   - apply gen_mutGaussian.
   - apply gen_mutPolynomialBounded.
   - apply gen_cxESBlend.
-  - apply gen_mutESLogNormal.
+  - now apply gen_mutESLogNormal.
 Qed.
+
+Lemma number_records_lawful : div_lawful FOps /\ forall eps, div_lawful (ROps eps).
+Proof. split; [exact div_lawful_FOps|exact div_lawful_ROps]. Qed.
 
 Lemma gen_sbx_bounded_defined_in_bounds : forall eps, 0 <= eps -> forall eta low up ind1 ind2,
   0 <= eta ->
@@ -110,21 +117,21 @@ Proof. intros. eapply spec_ext; [apply gen_mutGaussian|]. now apply mut_gaussian
 Lemma gen_eslognormal_len_scaled : forall eps c indpb g st s g' st' s',
   mutESLogNormal (ROps eps) g st c indpb s = Ok ((g', st'), s') ->
   length g' = length g /\ length st' = length st /\ Forall2 scaled st st'.
-Proof. intros *. rewrite gen_mutESLogNormal. apply mut_es_lognormal_inv. Qed.
+Proof. intros *. rewrite gen_mutESLogNormal by apply div_lawful_ROps. apply mut_es_lognormal_inv. Qed.
 
 Lemma gen_eslognormal_strategy_pos : forall eps c indpb g st s g' st' s',
   mutESLogNormal (ROps eps) g st c indpb s = Ok ((g', st'), s') ->
   forall i, 0 < nth i st 0 -> 0 < nth i st' 0.
-Proof. intros *. rewrite gen_mutESLogNormal. apply mut_es_lognormal_strategy_pos. Qed.
+Proof. intros *. rewrite gen_mutESLogNormal by apply div_lawful_ROps. apply mut_es_lognormal_strategy_pos. Qed.
 
 Lemma gen_eslognormal_indpb0_identity : forall eps c g st s g' st' s', draws_ok s ->
   mutESLogNormal (ROps eps) g st c 0 s = Ok ((g', st'), s') -> g' = g /\ st' = st.
-Proof. intros *. rewrite gen_mutESLogNormal. apply mut_es_lognormal_indpb0. Qed.
+Proof. intros *. rewrite gen_mutESLogNormal by apply div_lawful_ROps. apply mut_es_lognormal_indpb0. Qed.
 
 Lemma gen_eslognormal_indpb0_defined : forall eps c g st z us,
   g <> [] -> Forall in01 us -> (length g <= length us)%nat ->
   exists us', mutESLogNormal (ROps eps) g st c 0 (EGauss 0 1 z :: rs us) = Ok ((g, st), rs us').
 Proof.
   intros. destruct (mut_es_lognormal_indpb0_defined eps c g st z us) as [us' E]; auto.
-  exists us'. rewrite gen_mutESLogNormal. exact E.
+  exists us'. rewrite gen_mutESLogNormal by apply div_lawful_ROps. exact E.
 Qed.
